@@ -141,6 +141,11 @@ func (s *State) Get(key StoreKey) ([]byte, error) {
 }
 
 func (s *State) Set(key StoreKey, value []byte) error {
+	// the TOMBSTONE marker stands for a pending delete in the overlays: stored as an ordinary
+	// value it would read back as absent and silently remove the key at the next Write()
+	if isTombstone(value) {
+		return ErrReservedValue
+	}
 	if s.txSession != nil {
 		return s.txSession.Set(key, value)
 	}
